@@ -37,6 +37,8 @@ def render(e, indent, inherited_ns=None, depth=0, rootdecl=""):
             if indent is not None:
                 s += "\n" + " " * (indent * (depth + 1))
             s += render(k, indent, ns, depth + 1)
+        elif isinstance(k, tuple) and k[0] == "raw":
+            s += k[1]
         elif isinstance(k, tuple):           # ('cdata', text)
             s += "<![CDATA[" + k[1] + "]]>"
         else:
@@ -85,7 +87,7 @@ class LangGen:
     # ---- texts -------------------------------------------------------------------------------
     def unique_text(self):
         self.uniq += 1
-        return "text%d %s" % (self.uniq, self.rng.choice(["plain", "with words in it", "x", "lorem ipsum dolor", "a<b&c>d", "héllo wörld €"]))
+        return "text%d %s" % (self.uniq, self.rng.choice(["plain", "with words in it", "x", "lorem ipsum dolor", "a<b&c>d", "héllo wörld €", "end ]]> of > cdata ]] marker", "]]>"]))
 
     def is_typed(self, tag):
         name, page, tok, opts = tag
@@ -170,7 +172,7 @@ class LangGen:
             return self.rng.choice(DATETIMES)
         r = self.rng.below(10) if forced is None else forced
         if r == 9:
-            return base + 'say "hi" & <go> \'now\''                        # characters the XML generator must escape
+            return base + 'say "hi" & <go> \'now\' ]]> x ]] y > z'               # characters the XML generator must escape
         if r == 0:
             return base if base else "v"
         if r == 1:
@@ -247,12 +249,71 @@ class LangGen:
         for k, tx in enumerate(texts):
             kids.append(self.elt(pick(k), [tx]))
         if lit:
+            # literal names that are prefixes / inner substrings / suffixes of other literal names or of repeated texts
+            for nm, tx in (("vendor-ext", "1"), ("ext", "2"), ("vendor", "3"), ("dor-e", "4"), ("world", "5"), ("hello", "6"), ("text", "7"),
+                           ("hello_world", "8")):
+                kids.append(E(nm, None, [("vend", "a"), ("vendorattr", "b"), ("attr", "c"), ("orat", "d")] if nm == "vendor" else [], [tx]))
             kids.append(E("zzlit", None, [], [rep1]))
             kids.append(E(rep1, None, [], ["zzlit and " + rep1]))          # a literal tag name that is also a text
         kids.append(self.elt(pick(3), ["mixed ", self.elt(pick(4), []), " content ", self.elt(pick(5), ["x"]), "  "]))
         kids.append(self.elt(pick(6), [("cdata", " raw <cdata> " + rep1 + " "), ]))
         kids.append(self.elt(pick(7), ["before", ("cdata", "inside"), "after"]))
         kids.append(self.elt(pick(8), [("cdata", "")]))
+        if self.lid in (2001, 2101, 2201) and not d7:
+            # the MIME type rewrite: inside and outside a MetInf <Type>, both types, any case
+            meta = [t for t in self.all_tags if t[0] == "Meta"][0]
+            typ = [t for t in self.all_tags if t[0] == "Type" and t[1] == 1][0]
+            cmd = [t for t in self.all_tags if t[0] == "Cmd"][0]
+            for mt in ("application/vnd.syncml-devinf+xml", "application/vnd.syncml.dmtnds+xml", "Application/VND.SyncML-DevInf+XML",
+                       "application/vnd.syncml-devinf+wbxml", "application/vnd.syncml-devinf+xml "):
+                kids.append(self.elt(meta, [self.elt(typ, [mt])]))
+                kids.append(self.elt(cmd, [mt]))
+        return [self.root(kids)]
+
+    def boundary_docs(self):
+        """lengths and offsets at the mb_u_int32 boundaries 127/128 and 16383/16384/16385: OPAQUE (CDATA) payloads, a string
+        table of exactly 16384 octets, a literal and a table reference at offset 16384"""
+        ts = [t for t in self.tags if not self.is_typed(t)]
+        pick = lambda k: ts[k % len(ts)]
+        docs = []
+        docs.append(self.root([self.elt(pick(k), [("cdata", "c" * n)]) for k, n in enumerate((127, 128, 16383, 16384, 16385))]))
+        big = "T" + "q" * 16381 + "Z"                      # 16383 characters: its table entry fills offsets 0..16383
+        docs.append(self.root([self.elt(pick(0), [big]), self.elt(pick(1), [big]), self.elt(pick(2), ["other_string"]),
+                               self.elt(pick(3), ["other_string"]), E("zzatoffset", None, [], ["x"])]))
+        big2 = big[:-3]                                    # with the literal name "zz" (3 octets) the table is exactly 16384 long
+        docs.append(self.root([self.elt(pick(0), [big2]), self.elt(pick(1), [big2]), E("zz", None, [], ["x"])]))
+        return docs
+
+    def embedded_docs(self):
+        """SyncML messages with an embedded DevInf / DM DDF document"""
+        if self.lid not in (2001, 2101, 2201):
+            return []
+        t = lambda n, p=0: [x for x in self.all_tags if x[0] == n and x[1] == p][0]
+        inner = [('<DevInf xmlns="syncml:devinf"><VerDTD>1.%d</VerDTD><Man>shared text one</Man><Mod>shared text one</Mod><DevID>x</DevID></DevInf>'
+                  % {2001: 0, 2101: 1, 2201: 2}[self.lid], "application/vnd.syncml-devinf+xml")]
+        if self.lid == 2201:
+            inner.append(('<MgmtTree xmlns="syncml:dmddf1.2"><VerDTD>1.2</VerDTD><Node><NodeName>shared text one</NodeName><Value>4571F7C3</Value></Node></MgmtTree>',
+                          "application/vnd.syncml.dmtnds+xml"))
+        docs = []
+        for xml, mime in inner:
+            item = self.elt(t("Item"), [self.elt(t("Meta"), [self.elt(t("Type", 1), [mime])]), self.elt(t("Data"), [("raw", xml)])])
+            docs.append(self.root([self.elt(t("SyncBody"), [self.elt(t("Put"), [self.elt(t("CmdID"), ["1"]), item]),
+                                                            self.elt(t("Results"), [self.elt(t("CmdID"), ["shared text one"])])])]))
+        return docs
+
+    def binary_docs(self):
+        """binary-flagged elements (base64 in XML, OPAQUE in WBXML) with several content items: the decoded text is the
+        LAST child then, where encoder->current_tag is no longer set"""
+        bins = [t for t in self.tags if t[3] & 1]
+        if not bins:
+            return []
+        other = [t for t in self.tags if not (t[3] & 1)]
+        kids = []
+        for k, b in enumerate(bins[:12]):
+            child = self.elt(other[k % len(other)], [])
+            kids.append(self.elt(b, [BINS[0][:4], child, BINS[0][4:]]))
+            kids.append(self.elt(b, [child, BINS[k % len(BINS)]]))
+            kids.append(self.elt(b, [BINS[1], self.elt(other[(k + 1) % len(other)], ["inner"]), " "]))
         return [self.root(kids)]
 
 
@@ -275,6 +336,13 @@ def documents(tj, rng, quick=True, token_root=False):
         for d in g.text_docs(False, False):
             out.append((lang["id"], "text", (hdr + render(d, None, rootdecl=g.rootdecl)).encode("utf-8"), False))
             out.append((lang["id"], "text-indented", (hdr + render(d, 2, rootdecl=g.rootdecl)).encode("utf-8"), False))
+        for d in g.embedded_docs():
+            out.append((lang["id"], "embedded", (hdr + render(d, None, rootdecl=g.rootdecl)).encode("utf-8"), False))
+        if lang["id"] in (1104, 1301):
+            for d in g.boundary_docs():
+                out.append((lang["id"], "boundary", (hdr + render(d, None, rootdecl=g.rootdecl)).encode("utf-8"), False))
+        for d in g.binary_docs():
+            out.append((lang["id"], "binary-mixed", (hdr + render(d, None, rootdecl=g.rootdecl)).encode("utf-8"), False))
         for d in g.text_docs(True, False):
             out.append((lang["id"], "text-d7", (hdr + render(d, None, rootdecl=g.rootdecl)).encode("utf-8"), True))
     return out
